@@ -60,6 +60,7 @@ class LanePair:
         self.ps, self.cs, self.ks = ps, cs, ks
         self.memo = {}
         self.cursor = None        # the cursor local found in the source loads
+        self.loaded = {}          # coefficient base -> indices of the coefficients that were loaded
 
     # ---- classification of buffers
     def coeff_base(self, e, depth=0):
@@ -190,6 +191,7 @@ class LanePair:
             sz = self.ks
             if cur is not None:
                 return [U("coefficients read at a moving index")] * total
+            self.loaded.setdefault(base, set()).update((off * sz + i) // sz for i in range(nbytes))
             return [("K", base, off * sz + i) for i in range(nbytes)] + [Z] * (total - nbytes)
         if self.is_source(buf):
             row = fmt(strip(buf))[:60]
@@ -341,6 +343,7 @@ class LanePair:
             nb = {"_mm_loadu_si128": 16, "_mm256_loadu_si256": 32, "_mm_loadl_epi64": 8}[n]
             base = self.coeff_base(a[0])
             if base is not None:
+                self.loaded.setdefault(base, set()).update(i // self.ks for i in range(nb))
                 return [("K", base, i) for i in range(nb)] + [Z] * ((32 if nb == 32 else 16) - nb)
             return None
         if n in ("mm_cvtepu8_epi32", "mm_cvtepu8_epi32_u8x3", "mm_cvtepu8_epi32_from_u8") and len(a) == 2:
@@ -677,6 +680,15 @@ def pairing(rep, prog, rule, floor=150):
             for row, comp, js in rows:
                 if sorted(js) != list(range(nmax)):
                     wrong = (row, comp, sorted(js))
+            unused = sorted(j for j in lp.loaded.get(base, ()) if j >= nmax)
+            if not wrong and unused:
+                rep.bad(rule, key + "|loaded-unused", f.loc,
+                        "%s: the coefficients %s of the chunk %s are loaded into a vector but no "
+                        "multiply uses them (the products stop at coefficient %d): the shuffle that "
+                        "distributes the coefficients picks other (zeroed) bytes, so the pixels that "
+                        "belong to these coefficients are dropped from the sum" % (
+                            f.name, unused, base, nmax - 1))
+                continue
             if wrong:
                 missing = [j for j in range(nmax) if j not in wrong[2]]
                 dup = sorted({j for j in wrong[2] if wrong[2].count(j) > 1})
